@@ -201,6 +201,12 @@ func checkF1(c *fw.Ctx) {
 				n++
 				class, detail := panicClass(c, fn, pn)
 				construct := fmt.Sprintf("panic in %s is discharged", fw.FuncName(fn))
+				if class == "" && strings.Contains(detail, "dyn(") && strings.Contains(detail, "global:") {
+					// the condition is computed by a function taken from a package-level table (a list of
+					// requirements on the caller's input): what it tests is not visible here
+					c.Undecided(rule, construct, "the panic is reached under a condition computed by a function from a table: "+detail)
+					continue
+				}
 				if class == "" {
 					c.Fail(rule, construct, c.P.Pos(fw.InstrPos(pn)), "a panic is reachable under a condition that is not a local caller's contract and has no validator that excludes it: "+detail)
 					continue
